@@ -3,6 +3,7 @@
    run  <k=v>...   -> verdict=.. fails=.. racy=.. unmod=.. change=.. tree=.. probes=.. upd=..
    cli  <k=v>... jobs=<work>|<file>;...   -> exit=<0|1> verdicts=pass,fail:3,... racy=.. unmod=..
    tok  <env> <line>        -> ok <w>,<w>,... | err
+   re   <pattern> <text>    -> unsupported | m=<0|1> n=<count> safe=<0|1>
    clean/base/dir <hex>, join <hex> <hex>  -> <hex>
 
    keys: coe ree uniq upd (0/1), work hdir helper file (hex), env (hex K=V items, comma
@@ -118,6 +119,12 @@ let () = serve (function
   | ["tok"; e; l] ->
       let env = List.filter_map (fun h -> split_eq_bytes (bytes_of_hex h)) (split_on ',' e) in
       (match tokenise env (bytes_of_hex l) with Some ws -> "ok " ^ hexlist ws | None -> "err")
+  | ["re"; p; t] ->
+      (match parse_re (bytes_of_hex p) with
+       | None -> "unsupported"
+       | Some re ->
+           let tx = bytes_of_hex t in
+           Printf.sprintf "m=%s n=%d safe=%s" (b01 (re_has_match re tx)) (int_of_n (re_count re tx)) (b01 (re_byte_safe re tx)))
   | ["clean"; x] -> hex_of_bytes (clean (bytes_of_hex x))
   | ["base"; x] -> hex_of_bytes (base (bytes_of_hex x))
   | ["dir"; x] -> hex_of_bytes (dir (bytes_of_hex x))
